@@ -91,7 +91,7 @@ export function splitProgram(prog, rng, { collide = false } = {}) {
   // optional name collision: a second, different type declared under an already used name in another file
   let collision = null;
   if (collide) {
-    const cands = prog.decls.filter((d) => (d.d === "alias" || d.d === "iface") && !(d.params || []).length);
+    const cands = prog.decls.filter((d) => (d.d === "alias" || d.d === "iface" || d.d === "enum") && !(d.params || []).length);
     for (const b of rng.shuffle(cands)) {
       const fb = home.get(b.name);
       const inFb = new Set(byFile.get(fb).map((d) => d.name));
